@@ -1,9 +1,12 @@
 """Reference refinement model for C13 (subdivision), pure Python, exact arithmetic, no mouette import.
 
 Written from the property statement and the operations' docstrings, in a different style from the library:
-a mesh element is a tuple of EXACT POINTS (3-tuples of fractions.Fraction); the identity of a vertex is its
-position (vertex and face numbering of the refined mesh are not fixed by the statement, so nothing here
-depends on them). A refinement step is validated as a relation between the state observed before an
+a mesh element is a tuple of POINTS, a point being an exact affine combination of the ORIGINAL vertices (sparse
+tuple of (original index, Fraction weight)) - every centre of an edge, face or cell of a refined mesh is one.
+The identity of a vertex is that combination (vertex and face numbering of the refined mesh are not fixed by
+the statement, so nothing here depends on them); its exact position follows from the original positions.
+When two different combinations have positions closer than the tolerance (degenerate geometry) the
+observation cannot be interpreted: Degenerate is raised and the caller filters the case. A refinement step is validated as a relation between the state observed before an
 operation and the state observed after it:
 
   * the original vertices are still there, at the same index and position;
@@ -31,9 +34,32 @@ def P(p):
     return (Fr(p[0]), Fr(p[1]), Fr(p[2]))
 
 
-def centroid(pts):
+def W(i):
+    """the original vertex i as a point"""
+    return ((i, Fr(1)),)
+
+
+def centroid(ws):
+    """centre of points given as affine combinations (also used for 3-tuples of coordinates: see centroid3)"""
+    acc = {}
+    n = len(ws)
+    for w in ws:
+        for i, x in w:
+            acc[i] = acc.get(i, 0) + x
+    return tuple(sorted((i, x / n) for i, x in acc.items()))
+
+
+def centroid3(pts):
     n = len(pts)
     return (sum(p[0] for p in pts) / n, sum(p[1] for p in pts) / n, sum(p[2] for p in pts) / n)
+
+
+def pos(w, P0):
+    return (sum(x * P0[i][0] for i, x in w), sum(x * P0[i][1] for i, x in w), sum(x * P0[i][2] for i, x in w))
+
+
+class Degenerate(Exception):
+    """two different centres coincide geometrically: the case is filtered (exactly evaluated premise)"""
 
 
 def sub(a, b):
@@ -108,24 +134,6 @@ OPS = {
 TARGETED = ("TF", "FAN")
 
 
-def leaf_count(face_len, atoms):
-    """number of faces one face of that arity becomes (the same for every alternative)"""
-    lens = [face_len]
-    for a in atoms:
-        nxt = []
-        for k in lens:
-            if a == "T":
-                nxt += [3] * (1 if k == 3 else (2 if k == 4 else k))
-            elif a == "FAN":
-                nxt += [3] * k
-            elif a == "L0":
-                nxt += [3] * 4
-            elif a == "Q0":
-                nxt += [4] * 3
-        lens = nxt
-    return len(lens)
-
-
 def _alts(atom, face, existing):
     return atom_T(face, existing) if atom == "T" else ATOMS[atom](face)
 
@@ -173,17 +181,24 @@ def tolerance(points_f):
 
 
 def snap(obs, candidates, tol):
-    """the unique candidate exact point within tol of the observed float point, else (None, nearest distance)"""
-    best, bd, second = None, None, None
-    for c in candidates:
-        d = max(abs(float(c[0]) - obs[0]), abs(float(c[1]) - obs[1]), abs(float(c[2]) - obs[2]))
+    """candidates: list of (key, float position). The unique key within tol of the observed float point, else
+    (None, nearest distance); Degenerate if several keys are within tol."""
+    best, bd, near = None, None, 0
+    for key, c in candidates:
+        d = max(abs(c[0] - obs[0]), abs(c[1] - obs[1]), abs(c[2] - obs[2]))
+        if d <= tol:
+            near += 1
         if bd is None or d < bd:
-            best, bd, second = c, d, bd
-        elif second is None or d < second:
-            second = d
+            best, bd = key, d
+    if near > 1:
+        raise Degenerate()
     if best is None or bd > tol:
         return None, bd
     return best, bd
+
+
+def fpos(w, P0):
+    return tuple(float(x) for x in pos(w, P0))
 
 
 class StepFailure(Exception):
@@ -192,11 +207,12 @@ class StepFailure(Exception):
         self.clause, self.label, self.detail = clause, label, detail
 
 
-def validate_surface_step(before_P, before_Pf, before_F, kind, targets, obs_Pf, obs_F):
-    """before_P: exact positions, before_Pf: float positions as observed, before_F: faces (index tuples);
+def validate_surface_step(before_P, P0, before_Pf, before_F, kind, targets, obs_Pf, obs_F):
+    """before_P: the vertices of the state as points (affine combinations of the original vertices, whose exact
+    positions are P0), before_Pf: float positions as observed, before_F: faces (index tuples);
     kind: key of OPS; targets: None (every face) or the list of face indices the operation refines;
-    obs_*: state observed after the operation. Returns (exact positions of the new state, stats);
-    raises StepFailure(clause, label, detail)."""
+    obs_*: state observed after the operation. Returns (points of the new state, stats);
+    raises StepFailure(clause, label, detail) or Degenerate."""
     atoms = OPS[kind]
     n0 = len(before_P)
     tset = None if targets is None else set(targets)
@@ -224,13 +240,14 @@ def validate_surface_step(before_P, before_Pf, before_F, kind, targets, obs_Pf, 
             collect_points(f, a, cand, existing)
     cand -= set(before_P)
     tol = tolerance(before_Pf)
+    candf = [(c, fpos(c, P0)) for c in sorted(cand)]
     newP, taken = [], {}
     for j in range(n0, len(obs_Pf)):
-        c, d = snap(obs_Pf[j], cand, tol)
+        c, d = snap(obs_Pf[j], candf, tol)
         if c is None:
             raise StepFailure("new_vertex_position", "new_vertex_not_at_a_centre", {"vertex": j, "got": list(obs_Pf[j]), "distance_to_nearest_centre": d})
         if c in taken:
-            raise StepFailure("new_vertex_position", "two_new_vertices_at_one_centre", {"vertices": [taken[c], j], "position": [str(x) for x in c]})
+            raise StepFailure("new_vertex_position", "two_new_vertices_at_one_centre", {"vertices": [taken[c], j], "position": list(fpos(c, P0))})
         taken[c] = j
         newP.append(c)
     after_P = list(before_P) + newP
@@ -328,17 +345,19 @@ def surface_topology(faces, n):
 
 
 # ------------------------------------------------------------------------------------------ volume
-def tet_sign(c):
-    d = det3(sub(c[0], c[3]), sub(c[1], c[3]), sub(c[2], c[3]))
+def tet_sign(c, P0):
+    q = [pos(w, P0) for w in c]
+    d = det3(sub(q[0], q[3]), sub(q[1], q[3]), sub(q[2], q[3]))
     return (d > 0) - (d < 0)
 
 
-def tet_key(c):
-    return (tuple(sorted(c)), tet_sign(c))
+def tet_key(c, P0):
+    return (tuple(sorted(c)), tet_sign(c, P0))
 
 
-def validate_volume_step(before_P, before_Pf, before_C, before_Fl, kind, arg, obs_Pf, obs_C):
-    """kind 'CFAN' (arg = cell index) or 'FSPLIT' (arg = index in the raw face list before_Fl)."""
+def validate_volume_step(before_P, P0, before_Pf, before_C, before_Fl, kind, arg, obs_Pf, obs_C):
+    """kind 'CFAN' (arg = cell index) or 'FSPLIT' (arg = index in the raw face list before_Fl). Points are affine
+    combinations of the original vertices (positions P0). A child tetrahedron keeps its parent's orientation."""
     n0 = len(before_P)
     cells = [tuple(before_P[v] for v in c) for c in before_C]
     want = []
@@ -346,19 +365,19 @@ def validate_volume_step(before_P, before_Pf, before_C, before_Fl, kind, arg, ob
         m = centroid(cells[arg])
         for i, c in enumerate(cells):
             if i == arg:
-                s = tet_sign(c)
+                s = tet_sign(c, P0)
                 want += [(tuple(sorted(c[:k] + (m,) + c[k + 1:])), s) for k in range(4)]
             else:
-                want.append(tet_key(c))
+                want.append(tet_key(c, P0))
     else:
         tri = tuple(before_P[v] for v in before_Fl[arg])
         m = centroid(tri)
         for c in cells:
             if all(p in c for p in tri):
-                s = tet_sign(c)
+                s = tet_sign(c, P0)
                 want += [(tuple(sorted(tuple(m if q == p else q for q in c))), s) for p in tri]
             else:
-                want.append(tet_key(c))
+                want.append(tet_key(c, P0))
     if len(obs_C) != len(want):
         raise StepFailure("counts", "cell_count", {"got": len(obs_C), "want": len(want)})
     if len(obs_Pf) != n0 + 1:
@@ -367,15 +386,17 @@ def validate_volume_step(before_P, before_Pf, before_C, before_Fl, kind, arg, ob
         if tuple(obs_Pf[i]) != tuple(before_Pf[i]):
             raise StepFailure("originals_in_place", "original_vertex_moved", {"vertex": i, "got": list(obs_Pf[i]), "want": list(before_Pf[i])})
     tol = tolerance(before_Pf)
-    c, d = snap(obs_Pf[n0], [m], tol)
+    c, d = snap(obs_Pf[n0], [(m, fpos(m, P0))], tol)
     if c is None:
-        raise StepFailure("new_vertex_position", "new_vertex_not_at_the_centre", {"got": list(obs_Pf[n0]), "want": [float(x) for x in m], "distance": d})
+        raise StepFailure("new_vertex_position", "new_vertex_not_at_the_centre", {"got": list(obs_Pf[n0]), "want": list(fpos(m, P0)), "distance": d})
+    if m in before_P:
+        raise Degenerate()
     after_P = list(before_P) + [m]
     got = []
     for cidx in obs_C:
         if len(cidx) != 4 or len(set(cidx)) != 4 or any((not isinstance(v, int)) or v < 0 or v > n0 for v in cidx):
             raise StepFailure("refinement_pattern", "cell_index_invalid", {"cell": list(cidx), "n_vertices": n0 + 1})
-        got.append(tet_key(tuple(after_P[v] for v in cidx)))
+        got.append(tet_key(tuple(after_P[v] for v in cidx), P0))
     if sorted(got) != sorted(want):
         gs, ws = sorted(got), sorted(want)
         same_sets = sorted(k[0] for k in gs) == sorted(k[0] for k in ws)
